@@ -749,13 +749,13 @@ func init() {
 		},
 		controls: func(ctl *Ctx) []*RuleResult {
 			var out []*RuleResult
-			for _, n := range []string{"BadNoFinal", "BadSkipsFirst", "BadNoLength", "BadEarlyOut"} {
+			for _, n := range []string{"BadNoFinal", "BadSkipsFirst", "BadNoLength", "BadEarlyOut", "BadHelperSkipsFirst"} {
 				e := &RuleResult{Rule: "EQUIV"}
 				ruleEquiv(ctl, e, equivSpec{fn: "equivctl." + n, typ: "N", scalars: []string{"final"}, slices: []string{"labels", "links"}})
 				out = append(out, e)
 			}
 			eg := &RuleResult{Rule: "EQUIV"}
-			for _, n := range []string{"GoodRange", "GoodBackwards", "GoodOneLoop"} {
+			for _, n := range []string{"GoodRange", "GoodBackwards", "GoodOneLoop", "GoodHelpers"} {
 				ruleEquiv(ctl, eg, equivSpec{fn: "equivctl." + n, typ: "N", scalars: []string{"final"}, slices: []string{"labels", "links"}})
 			}
 			out[0].Findings = append(out[0].Findings, eg.Findings...)
